@@ -158,9 +158,26 @@ def run(ops, K=2, needs_hist=(2,), chains=2, seed=0, J=1, init_cfgs=(), included
         store_kernel_states=False, via_builder=False, meta=None, nq=0, prebuild=False, tune_error_chains=(),
         show_progress=False, computing=False):
     """ops: list of ("append", cfg) | ("next",) | ("all",).  Returns one trace per chain."""
-    eng, kernels, keys = build_engine(K, set(needs_hist), chains, seed, J, list(init_cfgs), included,
-                                      excluded, store_kernel_states, via_builder=via_builder, nq=nq, prebuild=prebuild,
-                                      tune_error_chains=tune_error_chains, show_progress=show_progress, computing=computing)
+    try:
+        eng, kernels, keys = build_engine(K, set(needs_hist), chains, seed, J, list(init_cfgs), included,
+                                          excluded, store_kernel_states, via_builder=via_builder, nq=nq, prebuild=prebuild,
+                                          tune_error_chains=tune_error_chains, show_progress=show_progress, computing=computing)
+    except RuntimeError as ex:
+        if not (via_builder and "position" in str(ex).lower()):
+            raise
+        # the builder refused the selection of tracked positions: one event, judged by the spec
+        keys = [f"p{k}" for k in range(1, K + 1)]
+        hdr = {"K": K, "J": J, "needs": sorted(needs_hist), "chain": 0, "init": list(init_cfgs), "kernel_keys": keys,
+               "included": list(included), "excluded": list(excluded), "nq": nq, "via_builder": via_builder, "seed": seed,
+               "lenient": False, "postkey": "", "derived": {},
+               "scenario": {"ops": [list(o) for o in ops], "K": K, "needs_hist": list(needs_hist), "chains": chains,
+                            "seed": seed, "J": J, "init_cfgs": list(init_cfgs), "included": list(included),
+                            "excluded": list(excluded), "store_kernel_states": store_kernel_states,
+                            "via_builder": via_builder, "nq": nq, "prebuild": prebuild,
+                            "tune_error_chains": list(tune_error_chains), "show_progress": show_progress,
+                            "computing": computing}}
+        hdr.update(meta or {})
+        return [{"hdr": hdr, "ev": [{"ev": "build_refused", "error": str(ex)[:200]}]}]
     if via_builder:
         J = int(eng._jitted_sample_duration)
     evs = {c: [] for c in range(chains)}
